@@ -23,6 +23,7 @@
 //   A <clk> pin=<src> rst=<src|-> f=<n>/<d>           one line per clock that got a clock pin (relevant clocks)
 //   H <rstsrc> <n>/<d>                                 reset hold time used by powerOn for each reset pin
 //   T <n>/<d> C <clk>:<r|f>:<k>,.. R <clk>:<0|1>,.. V <bits> <bits> ..    one line per onCommitState
+//                                                      (the line of time 0 lists the onReset calls of powerOn)
 //   end
 // and a final line "MAXDEN <n>" (largest numerator/denominator of any simulation time seen).
 #include "vh.h"
@@ -151,7 +152,8 @@ struct Observer : public sim::SimulatorCallbacks {
 	std::map<int, bool> clkEv; std::map<int, bool> rstEv; std::map<int, uint64_t> count;
 	void onNewTick(const Rat &t) override { now = t; noteRat(t); }
 	void onClock(const hlim::Clock *c, bool rising) override { if (inPowerOn) return; int i = clkIdx.at(c); if (clkEv.count(i)) throw std::runtime_error("two clock events of one pin in one instant"); clkEv[i] = rising; count[i]++; }
-	void onReset(const hlim::Clock *c, bool level) override { if (inPowerOn) return; int i = clkIdx.at(c); if (rstEv.count(i)) throw std::runtime_error("two reset events of one pin in one instant"); rstEv[i] = level; }
+	std::vector<std::pair<int, bool>> powerOnResets;
+	void onReset(const hlim::Clock *c, bool level) override { if (inPowerOn) { powerOnResets.push_back({ clkIdx.at(c), level }); return; } int i = clkIdx.at(c); if (rstEv.count(i)) throw std::runtime_error("two reset events of one pin in one instant"); rstEv[i] = level; }
 	void onCommitState() override {
 		auto &o = *out;
 		o << "T " << ratStr(now) << " C ";
@@ -160,6 +162,10 @@ struct Observer : public sim::SimulatorCallbacks {
 		if (first) o << "-";
 		o << " R ";
 		first = true;
+		// powerOn: the onReset calls in call order per pin (a pin may be asserted and released at once)
+		std::stable_sort(powerOnResets.begin(), powerOnResets.end(), [](auto &a, auto &b) { return a.first < b.first; });
+		for (auto &p : powerOnResets) { o << (first ? "" : ",") << p.first << ":" << (p.second ? 1 : 0); first = false; }
+		powerOnResets.clear();
 		for (auto &p : rstEv) { o << (first ? "" : ",") << p.first << ":" << (p.second ? 1 : 0); first = false; }
 		if (first) o << "-";
 		o << " V";
